@@ -12,7 +12,7 @@ import gen_flow
 import gen_sflow
 import sflowlib
 import vlib
-from props import c08, c12
+from props import c04, c08, c12
 
 LEVEL = "model_checking"
 u16 = gen_flow.u16
@@ -166,6 +166,7 @@ def check(ctx):
     c12.sched_stage(ctx, thorough)      # TLC schedules replayed move by move: decoded count and what the producer took after every move
     backlog_stage(ctx, thorough)
     end_to_end(ctx, thorough)
+    stats_views(ctx, thorough)
 
 
 def standalone(ctx, proto, tpls, data):
@@ -285,6 +286,124 @@ def backlog_stage(ctx, thorough):
                           "%d messages published (the same payload up to %d times)"
                           % (proto, r["sent"], r["udp_after"], r["dec_after"], r["published"], r["max_same_payload"]), case, key=proto + ":backlog-counts")
         ctx.traces_validated += 1
+
+
+def stats_views(ctx, thorough):
+    """the statistics as their readers see them (Stats.tla): the collector is run once per format - GET /flow as JSON, GET
+    /metrics as Prometheus text - and polled every few milliseconds while a script sends decodable and malformed datagrams
+    to the four ports; every snapshot is validated by TLC (StatsTrace.tla: Monotone, Bounded, QuietExact, gauges, workers)"""
+    import threading
+    import time
+    import gen_sflow
+    ctx.tlc_model("Stats", "StatsMC.cfg", workers=8)
+    ctx.tlc_must_fail("Stats", "StatsMisWired.cfg", expect="QuietExact", workers=8)
+    binary = ctx.go_build_bin("vflow")
+    gs = gen_sflow.Gen(ctx.rng)
+    # one sFlow datagram (a flow sample) the stand-alone decoder accepts; the copies differ in their sequence number
+    cands = [gs.datagram(v6=False, sub=0, seq=0, only=1)[0] for _ in range(12)]
+    rr = sflowlib.run(ctx, sflowlib.driver(ctx), [{"msgs": [{"buf": b, "filter": []}]} for b in cands], "statsprobe")
+    sf = next((b for b, r in zip(cands, rr) if not r.get("skipped") and "killed" not in r and r["res"][0]["st"] == "ok" and r["res"][0]["flows"]), None)
+    if sf is None:
+        raise vlib.Infra("no decodable sFlow datagram among the candidates")
+    good = {"ipfix": lambda i: c04.tpl_msg("ipfix", 400 + i % 7, 1) if i % 2 == 0 else c04.data_msg("ipfix", 400 + (i - 1) % 7),
+            "netflow9": lambda i: c04.tpl_msg("v9", 400 + i % 7, 2) if i % 2 == 0 else c04.data_msg("v9", 400 + (i - 1) % 7),
+            "netflow5": lambda i: [0, 5, 0, 1] + [i % 256] * 20 + [7] * 48,
+            "sflow": lambda i: sf[:20] + [(i >> 24) & 255, (i >> 16) & 255, (i >> 8) & 255, i & 255] + sf[24:]}
+    bad = {"ipfix": [0, 10, 0, 5, 7, 7, 7], "netflow9": [0, 9, 0, 5, 7, 7, 7], "netflow5": [0, 5], "sflow": [1, 2, 3]}
+    rows = []
+    for fmt in ("restful", "prometheus"):
+        d = ctx.subdir("e2e13stats_" + fmt)
+        sink = e2e.Sink()
+        sink.start()
+        col = e2e.Collector(ctx, binary, d, sink.port, workers=2, stats_format=fmt)
+        senders = e2e.Senders(2)
+        src = sorted(senders.socks)[0]
+        lock = threading.Lock()
+        stop = threading.Event()
+        rows.append({"ev": "reset", "view": fmt})
+
+        def snap():
+            st = col.stats()
+            if not st:
+                return
+            with lock:
+                for proto in c12.PROTOS:
+                    x = st.get(e2e.KEY[proto]) or {}
+                    rows.append({"ev": "snap", "view": fmt, "p": proto, "udp": x.get("UDPCount", -1), "dec": x.get("DecodedCount", -1),
+                                 "mqerr": x.get("MQErrorCount", -1), "workers": x.get("Workers", -1), "uq": x.get("UDPQueue", -1),
+                                 "mq": x.get("MessageQueue", -1)})
+
+        def poller():
+            while not stop.is_set():
+                snap()
+                time.sleep(0.004)
+        try:
+            col.start()
+            th = threading.Thread(target=poller, daemon=True)
+            th.start()
+            totals = {p: [0, 0] for p in c12.PROTOS}
+            for rnd in range(4 if thorough else 2):
+                for proto in c12.PROTOS:
+                    ng, nb = ctx.rng.randrange(5, 40), ctx.rng.randrange(0, 9)
+                    dg = [(src, good[proto](totals[proto][0] + i)) for i in range(ng)] + [(src, bad[proto])] * nb
+                    ctx.rng.shuffle(dg)
+                    with lock:
+                        rows.append({"ev": "sent", "view": fmt, "p": proto, "good": ng, "bad": nb})
+                    base = (col.stats() or {}).get(e2e.KEY[proto], {}).get("UDPCount", 0)
+                    got = e2e.send_paced(col, senders, proto, dg, base)
+                    totals[proto][0] += ng
+                    totals[proto][1] += nb
+                    if got < base + len(dg):
+                        raise vlib.Infra("%s: UDPCount %s < %d sent (kernel drop?)" % (proto, got, base + len(dg)))
+                # everything sent has been received; wait until the decoded counters stand still
+                lastv = None
+                for _ in range(60):
+                    st = col.stats() or {}
+                    cur = tuple((st.get(e2e.KEY[p]) or {}).get("DecodedCount") for p in c12.PROTOS)
+                    if cur == lastv and all((st.get(e2e.KEY[p]) or {}).get("UDPQueue") == 0 for p in c12.PROTOS):
+                        break
+                    lastv = cur
+                    time.sleep(0.1)
+                time.sleep(0.1)
+                with lock:
+                    rows.append({"ev": "quiet", "view": fmt})
+                time.sleep(0.15)
+            stop.set()
+            th.join(timeout=5)
+            ctx.count(["stats-view", fmt, ctx.seed])
+        finally:
+            stop.set()
+            col.kill()
+            senders.close()
+            sink.close()
+    out = ctx.tlc("StatsTrace", "StatsTrace.cfg", workers=1, timeout=600, files={"trace.ndjson": "".join(json.dumps(x) + "\n" for x in rows)})
+    m = re.search(r'"REJECTED-AT-LINE", (\d+)', out.out)
+    if m:
+        n = int(m.group(1))
+        e = rows[n - 1]
+        sent = {}
+        for x in rows[:n]:
+            if x["ev"] == "reset":
+                sent = {}
+            if x["ev"] == "sent" and x["p"] == e.get("p"):
+                sent = {"good": sent.get("good", 0) + x["good"], "bad": sent.get("bad", 0) + x["bad"]}
+        ctx.violation("statistics (%s view): a snapshot of %s is not one Stats.tla allows - %s; sent so far to this protocol: %s"
+                      % (e.get("view"), e.get("p"), json.dumps({k: e[k] for k in e if k not in ("ev", "view", "p")}), sent),
+                      {"snapshot": e, "sent": sent, "window": rows[max(0, n - 6):n]}, key="stats:" + str(e.get("view")) + ":" + str(e.get("p")))
+    elif out.status != "ok":
+        raise vlib.Infra("StatsTrace ended unexpectedly: %s\n%s" % (out, out.out[-1200:]))
+    else:
+        ctx.traces_validated += 2
+    nsnap = sum(1 for x in rows if x["ev"] == "snap")
+    ctx.extra["stats_views"] = {"snapshots_validated": nsnap, "formats": ["restful", "prometheus"]}
+    # binding self-test: a snapshot that reports one datagram too many, and one whose decoded counter went back
+    i = next(k for k, x in enumerate(rows) if x["ev"] == "snap" and x["udp"] > 0)
+    for nm, f in (("UDPCount + 1000", lambda x: dict(x, udp=x["udp"] + 1000)), ("DecodedCount of an earlier snapshot - 1", lambda x: dict(x, dec=x["dec"] - 1))):
+        mm = rows[:i] + [f(rows[i])] if nm.startswith("UDP") else rows[:i + 1] + [f(rows[i])]
+        o2 = ctx.tlc("StatsTrace", "StatsTrace.cfg", workers=1, timeout=300, files={"trace.ndjson": "".join(json.dumps(x) + "\n" for x in mm)})
+        if "REJECTED-AT-LINE" not in o2.out:
+            raise vlib.Infra("binding self-test failed: statistics trace with %s accepted" % nm)
+        ctx.binding_selftests.append({"corrupt": "statistics snapshot: " + nm, "rejected": True})
 
 
 def end_to_end(ctx, thorough):
